@@ -37,6 +37,12 @@ pub fn run(env: &Env, run: &Run) -> (Stats, Coverage) {
     let sigma = crate::sig::rotated(env, sigma12(), run.seed);
     let n = run.tier.pick(7, 9);
     let mut st = strtree(&sigma, n, |_c, s, st| visit(env, s, st));
+    if run.tier == Tier::Thorough && !lite() {
+        // a label of more than 4 GiB with the spaces behind offset 2^32
+        let tail = "\u{a0}z\u{3000}\u{3000}y \u{2003}";
+        check_rule_giga(Prof::Opaque, RuleFn::Additional, tail, |x| ref_space_opaque(&env.ud16, x), &mut st);
+        check_rule_giga(Prof::Nick, RuleFn::Additional, tail, |x| ref_space_nick(&env.ud16, x), &mut st);
+    }
     st.merge(cpsweep(|c, st| {
         let x = c as u32;
         for l in [vec![0x61, x, 0x62], vec![x], vec![0xE9, x, 0xE9], vec![0x20, x, 0x20], vec![0x61, 0x20, x], vec![x, 0x20, 0x61], vec![0x65E5, x, x, 0x10400]] {
@@ -118,6 +124,14 @@ pub fn replay(env: &Env, case: &Case) -> Vec<Violation> {
         match case.extra.get(0).and_then(|v| v.as_str()).and_then(Prof::from_name) {
             Some(Prof::Nick) => check_rule_fn(Prof::Nick, RuleFn::Additional, &s, &ref_space_nick(&env.ud16, &s), true, &mut st),
             Some(Prof::Opaque) => check_rule_fn(Prof::Opaque, RuleFn::Additional, &s, &ref_space_opaque(&env.ud16, &s), true, &mut st),
+            _ => {}
+        }
+    }
+    if case.op == "giga" {
+        let tail = case.str_at(0).to_string();
+        match case.extra.get(0).and_then(|v| v.as_str()).and_then(Prof::from_name) {
+            Some(Prof::Nick) => check_rule_giga(Prof::Nick, RuleFn::Additional, &tail, |x| ref_space_nick(&env.ud16, x), &mut st),
+            Some(Prof::Opaque) => check_rule_giga(Prof::Opaque, RuleFn::Additional, &tail, |x| ref_space_opaque(&env.ud16, x), &mut st),
             _ => {}
         }
     }
